@@ -30,7 +30,7 @@ PROPERTIES = ["C18"]
 CAP_POINTS = {"quick": 32, "thorough": 160}
 
 SPEC = {
-    "runs": {"quick": 100, "thorough": 2500},
+    "runs": {"quick": 100, "thorough": 400},
     "wall": {"quick": 900, "thorough": 7200},
     "chunk": 1,
     "min_budget": 40.0,
